@@ -373,14 +373,18 @@ def run_property(pid, tier, seed, replay=None):
     # shrink + report
     printed = []
     shr = getattr(mod, "shrink", None)
-    seen_kinds = set()
-    for v in violations:
-        key = (v["kind"], v["tag"])
-        if key in seen_kinds and len(printed) >= 3:
+    fails = [v for v in violations if v["kind"] == "failing-input"]
+    # a concrete failing input is the strongest report; correspondence-only reports are added only when none exists
+    to_report = []
+    seen_tags = set()
+    for v in (fails if fails else violations):
+        if v["tag"] in seen_tags and len(to_report) >= 1:
             continue
-        seen_kinds.add(key)
-        if len(printed) >= 5:
+        seen_tags.add(v["tag"])
+        to_report.append(v)
+        if len(to_report) >= 3:
             break
+    for v in to_report:
         line = v["line"]
         if shr is not None:
             def still(l2, _kind=v["kind"]):
